@@ -48,6 +48,12 @@ MUTATIONS = [
     ('caret-list-appended-to', 'C08', 'emmet/markup/format/html.py',
      "        elif not value:\n            value = caret\n",
      "        elif not value:\n            value = caret\n            if len(caret) < 3 and attr.name == 'data-x':\n                caret.append(' ')\n"),
+    ('snippet-definition-memoised-by-name', 'C08', 'emmet/markup/snippets.py',
+     "        snippet = config.snippets.get(child.name) if child.name else None\n",
+     "        snippet = config.snippets.get(child.name) if child.name else None\n        if snippet and ':' not in child.name and len(child.name) == 3:\n            snippet = _SEEN.setdefault(child.name, snippet)\n"),
+    ('convert-state-options-memoised-by-abbreviation', 'C08', 'emmet/markup/__init__.py',
+     "            'jsx': bool(config.options.get('jsx.enabled')),\n",
+     "            'jsx': _JSX.setdefault(abbr, bool(config.options.get('jsx.enabled'))),\n"),
     ('offset-not-advanced-in-push-field', 'C13', 'emmet/output_stream.py',
      "        self._push(field(index, placeholder, offset=self.offset, line=self.line, column=self.column))",
      "        val = field(index, placeholder, offset=self.offset, line=self.line, column=self.column)\n        self._value.append(val)\n        self.column += len(val)"),
@@ -102,6 +108,11 @@ EQUIVALENT = [
          "    if snippets is None:\n        memo_key = tuple(sorted(config.snippets.items()))\n        if memo_key not in _CONVERTED:\n            _CONVERTED[memo_key] = convert_snippets(config.snippets)\n        snippets = _CONVERTED[memo_key]"),
         ('emmet/stylesheet/__init__.py', "gradient_name = 'lg'\n", "gradient_name = 'lg'\n_CONVERTED = {}\n"),
     ]),
+    ('tokenizer-memoised-by-source-string', ['C08', 'C13'], [
+        ('emmet/abbreviation/__init__.py', "        tokens = tokenize(abbr) if isinstance(abbr, str) else abbr\n",
+         "        if isinstance(abbr, str):\n            if abbr not in _TOKENS:\n                _TOKENS[abbr] = tokenize(abbr)\n            tokens = list(_TOKENS[abbr])\n        else:\n            tokens = abbr\n"),
+        ('emmet/abbreviation/__init__.py', "from ..scanner import ScannerException\n", "from ..scanner import ScannerException\n\n_TOKENS = {}\n"),
+    ]),
     ('newline-written-without-consulting-output-text', ['C13'], [
         ('emmet/output_stream.py',
          "        self.push('%s%s' % (newline, base_indent))\n        self.line += 1\n",
@@ -126,6 +137,8 @@ EQUIVALENT = [
 ]
 
 PREAMBLE = {
+    'snippet-definition-memoised-by-name': ('emmet/markup/snippets.py', "\n_SEEN = {}\n"),
+    'convert-state-options-memoised-by-abbreviation': ('emmet/markup/__init__.py', "\n_JSX = {}\n"),
     'bem-lookup-at-module-level': ('emmet/markup/__init__.py', "\n_BEM_LOOKUP = {}\n"),
     'merged-data-memoised-by-type-syntax-key': ('emmet/config.py', "\n_MEMO = {}\n"),
     'module-level-snippet-cache-ignores-config': ('emmet/stylesheet/__init__.py', "\n_SNIPPET_CACHE = []\n"),
